@@ -1,5 +1,6 @@
-from checks import scan, text, hexre, cond
+from checks import scan, text, hexre, cond, shortcuts
 CHECKS = {
+    "C12": shortcuts.c12,
     "C04": cond.c04,
     "C02": hexre.c02,
     "C03": hexre.c03,
